@@ -20,7 +20,7 @@ package runner
 // unchanged; nil is returned iff every step ran and returned nil (so the last step - code generation - runs
 // only after everything before it succeeded).
 //@ func (*Runner).Run
-//@   property C10 C16
+//@   property C10 C16 C05 C06 C07 C11 C12 C18
 //@   requires [wired] forall j int :: 0 <= j && j < len(r.steps) ==> r.steps[j] != nil
 //@   ensures [runs_a_prefix_in_order] tlen() - old(tlen()) <= len(r.steps) && tlen() >= old(tlen())
 //@        && (forall j int :: 0 <= j && j < tlen() - old(tlen()) ==> evIs(old(tlen()) + j, "internal/cmd/runner:Step.Run") && evRecv(old(tlen()) + j) == r.steps[j])
@@ -37,7 +37,7 @@ package runner
 // C16 / C10: an amalgamated step runs every sub-step exactly once, in order, whatever the others return, and
 // is accepted iff all of them are (no masking).
 //@ func (*StepAmalgamated).Run
-//@   property C10 C16
+//@   property C10 C16 C05 C06 C07 C11 C12 C18
 //@   reports_all
 //@   requires [wired] forall j int :: 0 <= j && j < len(s.steps) ==> s.steps[j] != nil
 //@   modifies *i, *o
@@ -52,7 +52,7 @@ package runner
 // C16: a switchable step that is inactive does not run its parent and accepts; an active one runs the parent
 // exactly once and returns the parent's verdict unchanged. Indentation is balanced (C12: EndIndent never underflows).
 //@ func (*StepVerboseSwitchable).Run
-//@   property C10 C16
+//@   property C10 C16 C05 C06 C07 C11 C12 C18
 //@   requires [wired] s.parent != nil && s.printer != nil && s.indenter != nil
 //@   modifies *i, *o
 //@   ensures [inactive_skips_parent] !s.active ==> result == nil && *i == old(*i) && *o == old(*o)
@@ -72,18 +72,18 @@ package runner
 
 // (declared `effect` so that the composition root's contract can say which step is switched by which flag)
 //@ func (*StepVerboseSwitchable).Active effect
-//@   property C16
+//@   property C16 C05 C06 C07 C11 C12 C18 C10
 //@   modifies s.active
 //@   ensures [set] s.active == active && s.parent == old(s.parent) && s.printer == old(s.printer) && s.indenter == old(s.indenter)
 
 //@ func (*StepOutputValidationRule).Run
-//@   property C10 C16
+//@   property C10 C16 C05 C06 C07 C11 C12 C18
 //@   requires o != nil
 //@   ensures [verdict_is_the_rules] result == apply(s.validator, old(*o))
 //@   ensures [output_untouched] *o == old(*o)
 
 //@ func (*StepCompile).Run
-//@   property C10 C02 C03 C04 C05 C13 C14 C15 C06 C07 C11
+//@   property C10 C02 C03 C04 C05 C13 C14 C15 C06 C07 C11 C12 C18 C16
 //@   requires o != nil && i != nil && s.compiler != nil
 //@   modifies *o
 //@   ensures [compiles_once] tlen() == old(tlen()) + 1 && evIs(old(tlen()), "internal/cmd/runner:compiler.Compile") && result == evErr(old(tlen()))
@@ -98,7 +98,7 @@ package runner
 // cleaned -o path; it succeeds iff both succeeded. (os.WriteFile is the only file-mutating call in the repository:
 // structural obligation of C10.)
 //@ func (*StepCodeGenerator).Run
-//@   property C10 C02 C03 C04 C05 C13 C14 C15
+//@   property C10 C02 C03 C04 C05 C13 C14 C15 C06 C07 C11 C12 C18 C16
 //@   requires [wired] s.printer != nil && s.builder != nil && o != nil
 //@   ensures [builds_exactly_once] exists b int :: old(tlen()) <= b && b < tlen() && evIs(b, "internal/cmd/runner:codeBuilder.Build")
 //@        && (forall k int :: old(tlen()) <= k && k < tlen() && k != b ==> !evIs(k, "internal/cmd/runner:codeBuilder.Build"))
@@ -124,7 +124,7 @@ package runner
 
 // C15 / C03: the built-in parameter functions are exactly env, envInt and todo, bound to the generated helpers
 //@ func (StepDefaultInput).Run
-//@   property C15 C03 C12
+//@   property C15 C03 C12 C05 C06 C07 C11 C18 C10 C16
 //@   requires i != nil
 //@   modifies i.Meta
 //@   ensures [builtins] result == nil && (forall f string :: (f in i.Meta.Functions) <==> (f == "env" || f == "envInt" || f == "todo"))
@@ -156,7 +156,7 @@ package runner
 // (that precondition - every service tagged step-runner-verbose implements Step - is a fact of
 // internal/gontainer/gontainer_runner.yaml: evaluated by the composition test, not proved)
 //@ func DecorateStepVerboseSwitchable
-//@   property C12 C10 C16
+//@   property C12 C10 C16 C05 C06 C07 C11 C18
 //@   requires [decorated_service_is_a_step] implements(payload.Service, Step)
 //@   ensures [wraps_the_service_active_by_default] result != nil && result.printer == p && result.indenter == i && result.active
 
@@ -213,27 +213,27 @@ package runner
 //@     invariant [errors_kept] someErr(entry(errs)) ==> someErr(errs)
 // ---- constructors
 //@ func NewPrinter
-//@   property C10 C12
+//@   property C10 C12 C05 C06 C07 C11 C18 C16
 //@   ensures [writes_to_the_given_writer] result != nil && result.writer == w && len(result.indents) == 0
 //@ func NewRunner
-//@   property C10 C16
+//@   property C10 C16 C05 C06 C07 C11 C12 C18
 //@   ensures [keeps_the_steps_in_order] result != nil && ((forall j int :: 0 <= j && j < len(steps) ==> steps[j] != nil) ==> len(result.steps) == len(steps) && (forall j int :: 0 <= j && j < len(steps) ==> result.steps[j] == steps[j]))
 //@ func NewStepAmalgamated
-//@   property C10 C16
+//@   property C10 C16 C05 C06 C07 C11 C12 C18
 //@   ensures [fields_as_given] result != nil && result.name == name && ((forall j int :: 0 <= j && j < len(steps) ==> steps[j] != nil) ==> len(result.steps) == len(steps) && (forall j int :: 0 <= j && j < len(steps) ==> result.steps[j] == steps[j]))
 //@ func NewStepCodeGenerator
-//@   property C10
+//@   property C10 C05 C06 C07 C11 C12 C18 C16
 //@   ensures [fields_as_given] result != nil && result.printer == printer && result.builder == builder && result.outputFile == outputFile
 //@ func NewStepCompile
-//@   property C10
+//@   property C10 C05 C06 C07 C11 C12 C18 C16
 //@   ensures [fields_as_given] result != nil && result.compiler == c
 //@ func NewStepOutputValidationRule
-//@   property C10 C16
+//@   property C10 C16 C05 C06 C07 C11 C12 C18
 //@   ensures [fields_as_given] result != nil && result.validator == v && result.ruleName == ruleName
 //@ func NewStepReadConfig
-//@   property C09 C10 C02 C03 C04 C05 C06 C07 C11 C13 C14 C15 C16 C18
+//@   property C09 C10 C02 C03 C04 C05 C06 C07 C11 C13 C14 C15 C16 C18 C12
 //@   ensures [fields_as_given] result != nil && result.printer == printer && result.patterns == patterns
 //@ func NewStepVerboseSwitchable
-//@   property C10 C16
+//@   property C10 C16 C05 C06 C07 C11 C12 C18
 //@   ensures [fields_as_given] result != nil && result.parent == parent && result.printer == printer && result.indenter == i
 //@   ensures [active_by_default] result.active
